@@ -251,14 +251,8 @@ func (eq *externalBaseQueue) Purge() {
 	// let the event loop release WaitUntilFinished callers if nothing is left
 	defer eq.w.notifyToPullNextJobs()
 
-	// persistent and distributed queues hold serialized jobs: there is
-	// no handle to release, the adapter just drops its entries
-	if _, ok := eq.q.(IAcknowledgeable); ok {
-		eq.q.Purge()
-		return
-	}
-
-	// Take the pending jobs out one by one and close exactly those. Closing a
+	// Take the pending jobs out one by one and close exactly those (a queue bound with
+	// WithQueue/WithPriorityQueue holds job handles too, whatever else its adapter implements). Closing a
 	// snapshot of Values() after Purge() silently dropped a job that was
 	// enqueued between the two calls: never run, never closed, waiters stuck.
 	for n := eq.q.Len(); n > 0; n-- {
